@@ -8,5 +8,5 @@ mkdir -p build evidence replays
 (cd vinject && go build -o ../build/vinject .)
 go build -o build/check ./cmd/check
 build/vinject -repo /repo -out build/overlay -hooks hooks
-go test -c -overlay build/overlay/overlay.json -o build/sim.test ./simtest
+for d in simtest/c*/; do p=$(basename $d); go test -c -overlay build/overlay/overlay.json -o build/sim-$p.test ./simtest/$p; done
 echo setup ok
